@@ -98,7 +98,7 @@ theorem segmentNew_columns (c : Ctx B E) (x : ExtView B E) (N : Nat) (polys : Co
     (po : Nat) (hpo : po < numBaseCols x polys) :
     segmentNew c x N polys po offsets tws = some (segValue c x N polys po offsets tws) ∧
     (segValue c x N polys po offsets tws).size = 2 ^ (K + 1 + (b + 1)) ∧
-    ∀ k, k < N → po + k < numBaseCols x polys →
+    ∀ k (_ : k < N), po + k < numBaseCols x polys →
       evaluatePolyWithOffset (baseCtx c) (baseCol c x polys (po + k)) tws s (2 ^ (b + 1)) =
         some ((segValue c x N polys po offsets tws).map (fun v : Vector B N => v[k])) := by
   have hosz : offsets.size = 2 ^ (K + 1 + (b + 1)) := by
@@ -245,7 +245,7 @@ theorem seg_offset_lt (N numBase sg : Nat) (hN : 0 < N) (h : sg < numSegments N 
     rw [Nat.mul_comm (numBase / N) N] at this
     omega
 
-theorem div_lt_numSegments (N numBase j : Nat) (hN : 0 < N) (h : j < numBase) :
+theorem div_lt_numSegments (N numBase j : Nat) (_hN : 0 < N) (h : j < numBase) :
     j / N < numSegments N numBase := by
   unfold numSegments
   have h1 := Nat.div_add_mod numBase N
@@ -333,7 +333,7 @@ theorem evaluatePolysOver_index (c : Ctx B E) (x : ExtView B E) (N : Nat) (hN : 
     rw [this]
     simp only [Bool.false_eq_true, if_false]
     rw [if_neg (by
-      simp only [decide_eq_true_eq, Bool.not_eq_true', decide_eq_false_iff_not, not_not]
+      simp only [Bool.not_eq_true', decide_eq_false_iff_not, not_not]
       rw [hlen]; exact numSegments_mul_ge N _ hN)]
     show (transpose c.b.zero segs).map _ = _
     rw [ht]
